@@ -8,6 +8,7 @@ one in the parent; a capped or dead run is a harness error, never a pass or viol
 import faulthandler
 import gc
 import json
+import multiprocessing
 import os
 import select
 import signal
@@ -24,12 +25,23 @@ def _alarm(signum, frame):
     raise RunTimeout()
 
 
-def _worker(wid, nworkers, indices, fn, wfd, run_cap, batch_deadline):
+def _take(indices, ctr):
+    """Work queue: the next unclaimed run index (who computes a run never changes its result)."""
+    while True:
+        with ctr.get_lock():
+            k = ctr.value
+            ctr.value += 1
+        if k >= len(indices):
+            return
+        yield indices[k]
+
+
+def _worker(wid, nworkers, indices, fn, wfd, run_cap, batch_deadline, ctr):
     out = os.fdopen(wfd, 'w', buffering=1 << 16)
     signal.signal(signal.SIGALRM, _alarm)
     faulthandler.enable()
     try:
-        for i in indices[wid::nworkers]:
+        for i in _take(indices, ctr):
             if time.monotonic() > batch_deadline:
                 out.write(json.dumps({'i': i, 'skipped': True}) + '\n')
                 continue
@@ -65,6 +77,7 @@ def run_batch(indices, fn, nworkers=None, run_cap=60.0, batch_cap=3600.0):
     gc.collect()
     gc.freeze()      # keep the parent's heap out of the children's GC passes (no copy-on-write storms)
     kids = {}
+    ctr = multiprocessing.get_context('fork').Value('l', 0)
     for w in range(nworkers):
         r, wfd = os.pipe()
         pid = os.fork()
@@ -75,7 +88,7 @@ def run_batch(indices, fn, nworkers=None, run_cap=60.0, batch_cap=3600.0):
                     os.close(rr)
                 except OSError:
                     pass
-            _worker(w, nworkers, indices, fn, wfd, run_cap, deadline)
+            _worker(w, nworkers, indices, fn, wfd, run_cap, deadline, ctr)
             os._exit(0)
         os.close(wfd)
         os.set_blocking(r, False)
